@@ -32,8 +32,8 @@ theorem recvDup_Inv {s : State} (h : Inv s) (remote : Remote) (w : Wire) :
 
 theorem processRequest_Inv {s : State} (h : Inv s) (remote : Remote) (w : Wire) :
     Inv (processRequest s remote w).1 :=
-  Inv_of_fields h (processRequest_tables s remote w).1 (processRequest_tables s remote w).2
-    (processRequest_recent s remote w)
+  ⟨NInv_of_tables h.n (processRequest_tables s remote w).1 (processRequest_tables s remote w).2,
+   processRequest_RInv h.r remote w⟩
 
 theorem processResponse_Inv {s : State} (h : Inv s) (remote : Remote) (w : Wire) :
     Inv (processResponse s remote w).1 :=
@@ -75,7 +75,7 @@ theorem recv_Inv {s : State} (h : Inv s) (remote : Remote) (mcLocal : Bool) (w :
   · exact recvDup_Inv h _ _
   · dsimp only
     apply recvCode_Inv
-    have h0 : Inv (if isRequest w.code = true then
+    have h0 : Inv (if dedupable w = true then
         { s with recent := s.recent ++ [{ remote, mid := w.mid, reply := none,
                                           expiry := s.now + s.cfg.exchangeLifetime }] } else s) := by
       split
